@@ -196,7 +196,7 @@ def build(verbose=False):
         # 3. extraction + driver, when the model changed
         stamp = os.path.join(OCAML, ".stamp")
         h = hashlib.sha256()
-        for root in ("Base", "Model"):
+        for root in ("Base", "Model", "gen"):
             for fn in sorted(os.listdir(os.path.join(COQ, root))):
                 if fn.endswith(".v"):
                     with open(os.path.join(COQ, root, fn), "rb") as f:
